@@ -540,6 +540,21 @@ pub type Deep {
 "##.to_string()),
     ]));
 
+    // a module nested below another one that has items of its own (the child's items belong to the child's file only)
+    c.push(("nested-modules", vec![
+        ("gfx", "pub type Plain {\n    pub a: u32,\n}\n#[address(0x10)]\npub extern gfx_value: u32;\n".to_string()),
+        ("gfx::detail", "pub type Inner {\n    vftable {\n        pub fn f(&self);\n    },\n}\npub enum Kind: u8 {\n    A,\n}\n#[address(0x20)]\npub extern detail_value: u32;\n".to_string()),
+        ("gfx::detail::deeper", "use gfx::Plain;\npub type Deep {\n    pub p: Plain,\n}\n".to_string()),
+        ("gfx2", "pub type Other {\n    pub a: u8,\n}\n".to_string()),
+    ]));
+    // a packed type whose fields are all naturally aligned still has alignment 1
+    c.push(("packed-aligned", vec![("m", "#[packed]\npub type PackedAligned {\n    pub a: u32,\n    pub b: u32,\n}\n#[packed]\npub type PackedPointer {\n    pub p: *const u8,\n    pub xs: [u16; 4],\n}\npub type Holder {\n    pub tag: u8,\n    pub inner: PackedAligned,\n    _: unknown<7>,\n    pub q: *const u8,\n    pub r: *const u8,\n}\n".to_string())]));
+    // a user type named like a built-in, imported by name (the import outranks the built-in)
+    c.push(("import-named-like-builtin", vec![
+        ("ffi", "#[align(4)]\npub type void {\n    pub raw: [u8; 20],\n}\npub type u32x {\n    pub a: u32,\n}\n".to_string()),
+        ("app::win", "use ffi::void;\n#[align(8)]\npub type W {\n    vftable {\n        pub fn get(&self, v: *const void) -> *mut void;\n    },\n    #[address(8)]\n    pub by_value: void,\n    _: unknown<4>,\n    pub ptr: *const void,\n    pub pad: *const void,\n    pub arr: [void; 2],\n}\nimpl W {\n    #[address(0x10)]\n    pub fn take(&self, a: *mut void) -> *const void;\n}\n".to_string()),
+        ("app::plain", "pub type P {\n    pub ptr: *const void,\n    pub ptr2: *mut void,\n}\n".to_string()),
+    ]));
     // marker-attribute subsets x visibility on a struct and an enum
     for cp in [false, true] {
         for cl in [false, true] {
@@ -611,6 +626,8 @@ pub fn unrelated_pairs() -> Vec<(&'static str, &'static str, Mods, Mods)> {
         ("unrelated module changed", "m", vec![("m", m.clone()), ("n", "pub type N { pub x: u64 }\n".to_string())], vec![("m", m.clone()), ("n", "#[align(1)] pub type N { pub x: u8, pub y: u8 }\npub type T { pub z: u8 }\n".to_string())]),
         ("unrelated module with the same type names", "m", vec![("m", m.clone())], vec![("m", m.clone()), ("zz::m", "pub type T { pub q: u8 }\npub enum E: u32 { Z }\n".to_string())]),
         ("unrelated type added to an imported module", "user", vec![("lib", lib.clone()), ("user", user.clone())], vec![("lib", format!("{lib}pub type Extra {{ pub e: u8 }}\n")), ("user", user.clone())]),
+        ("unrelated module nested below the observed one", "gfx", vec![("gfx", "pub type Plain { pub a: u32 }\n".to_string())], vec![("gfx", "pub type Plain { pub a: u32 }\n".to_string()), ("gfx::detail", "pub type Inner { pub b: u8 }\npub enum K: u8 { A }\n".to_string())]),
+        ("nested unrelated module changed", "gfx", vec![("gfx", "pub type Plain { pub a: u32 }\n".to_string()), ("gfx::detail", "pub type Inner { pub b: u8 }\n".to_string())], vec![("gfx", "pub type Plain { pub a: u32 }\n".to_string()), ("gfx::detail", "pub type Inner2 { pub b: u16 }\n".to_string())]),
         ("unrelated module added next to an import", "user", vec![("lib", lib.clone()), ("user", user.clone())], vec![("lib", lib.clone()), ("user", user.clone()), ("aaa", "pub type L { pub other: u8 }\n".to_string())]),
     ]
 }
